@@ -42,6 +42,11 @@ CLAIMED = {
         "Unbounded theorems: add, mul, neg, pow with an Integer exponent and div preserve the value in Q(i) under every valuation of symbols and constants (definedness guards for zero denominators); expressions the library considers eq have equal values. Radical extraction (rpowrat), nested-power folding with non-integer exponents and complex principal-branch semantics are NOT proved: an independent evaluator (exact in Q(i), otherwise cmath away from cuts) compares recipe and result at real and Gaussian-rational points (testing, labelled).",
         "Trusted: as C03.",
         "7 (C07)"),
+    "C08": (
+        "Rocq proof over the reals (Rtrigo/Coquelicot) about an executable model of the trigonometric argument-reduction logic (get_pi_shift, trig_simplify, handle_minus, table indexing) with tables REGENERATED from functions.cpp/constants.cpp, plus axiom-free theorems for the exact-number rules + exact correspondence",
+        "Unbounded theorems: for every rational multiple of pi (any shift size) and all six trigonometric constructors, the rewritten result has the value of the function at the argument (table exit = f(k*pi/12), otherwise sign*(f or cofunction)(reduced argument)), recursing through trig_simplify at any depth; the 24 sin_table entries and the 14 inverse_tct entries are correct, 8 of 12 inverse_cst entries are correct (2 refuted = known findings); floor/ceiling/truncate/sign/abs on rationals and Q(i), max/min folding, kronecker_delta/levi_civita, gamma at integers and half-integers, primepi below 2^32. All other special-value rules (zeta, polygamma, beta, erf, lambertw, hyperbolics) and complex points are covered by a numeric oracle only (testing, labelled).",
+        "Trusted: Coq kernel; Reals axioms for the trigonometric theorems; the table translator; extraction; known findings (listed): inverse_cst C4/C5 entries (pinned by the repository's tests), acot range convention, atan2 of symbolic arguments, floor of exact Complex, polygamma at non-positive non-integers.",
+        "7 (C08)"),
     "C12": (
         "Rocq proof over rule tables REGENERATED from eval_double.cpp on every run (translators/tr_evalrules.py): per-class formulas over abstract libm symbols, interpreted over the reals (Coquelicot/Rtrigo) + bit-exact correspondence of eval_double / single dispatch / lambda against a Flocq binary64 model",
         "Theorems: for 35 node classes the formula that the visitor evaluator AND the single-dispatch table compute, interpreted with ideal real functions, is the mathematical function of the class (inverse functions by principal range + inverted function; E**x = exp x); the single-dispatch table equals the visitor table on its 44 classes (computed) and the two evaluators return the same result on every tree over those classes in any float algebra (axiom-free). What the theorems do not reach: the rounding error of libm and of the composition - covered by a long-double reference oracle with conditioning estimate (testing, labelled).",
@@ -107,6 +112,11 @@ CLAIMED = {
         "Unbounded theorems: free_symbols is exactly the set of symbols occurring outside Subs binders (memo set included; equals the property's notion on trees without ImageSet/ConditionSet, with refutation witnesses for those), traversals terminate, has_symbol is characterised by reachability through get_args and agrees with free_symbols on Subs-free trees, atoms/function_symbols are sound and complete up to the library's equality, coeff on univariate integer polynomials is the dictionary coefficient and reconstructs the polynomial (partial: multivariate/symbolic coefficients by correspondence only). Tied by identical answers of model and library on generated expressions (incl. Subs, ImageSet, ConditionSet, Piecewise, sets, dummies) and independent oracles in the driver.",
         "Trusted: Coq kernel; extraction; hand transcription validated by correspondence; the three coeff theorems inherit the Reals axioms through the number-tower model (Flocq); known findings (listed): bound symbols of ImageSet/ConditionSet reported free, has_symbol true for Subs-bound variables.",
         "7 (C39)"),
+    "C42": (
+        "Rocq proof over a table REGENERATED from cwrapper.cpp on every run (translators/tr_cwrapper.py: protection kind, guards, forwarded callee and argument order per extern \"C\" function) and a state-machine model of the C handles/containers + lock-step correspondence of C API call sequences with a C++-API mirror",
+        "Theorems: a function wrapped in CWRAPPER_BEGIN/END never lets an exception out, for any table, core behaviour and call sequence; on the current table every function is protected or in an explicit justified list (decided by computation), with a refutation for lambda_real_double_visitor_init; each forwarder returns the C++ API value of the expected callee on the expected argument order or an error code with the state untouched (153 functions); vector/set/map container laws; state invariant after any history; Expression operators agree with core calls. Matrix/MPFR/LLVM/cse/solve wrappers are covered by the static table theorems only.",
+        "Trusted: Coq kernel (vm_compute on the generated table); the translator (a changed body changes the table/fingerprint and breaks an obligation); extraction; known findings (listed): setbasic_get out of range, exceptions escaping lambda_real_double_visitor_init and basic_set_is_*subset/superset.",
+        "7 (C42)"),
     "C46": (
         "Rocq proof over an executable model of homogeneous_lde (Contejean-Devie: stack, Frozen matrix with checked indices, order/is_minimum) + correspondence of returned bases in order + proved-correct brute-force enumerator as oracle",
         "Unbounded theorems for every integer matrix: every run that ends returns exactly the minimal non-zero non-negative solutions of A x = 0, each once (soundness, antichain, completeness by the Contejean-Devie argument), never indexes outside its arrays (stack-depth bound proved as an invariant), and more fuel does not change the result. Termination is proved only on complete small universes (kernel sweep), so the theorems are conditional on the run ending. Tied by comparing the returned basis (in order) between model and library and by an independent brute-force Hilbert-basis oracle in the driver.",
@@ -117,6 +127,11 @@ CLAIMED = {
         "Theorems for all real numbers of all kinds and values: Lt/Le agree with the numeric order (unguarded on integers, rationals and +-oo; guarded where an exact operand is converted to double, with refutation witnesses), Le(a,b) = not Lt(b,a), Ge/Le and Gt/Lt dualities, Eq symmetric, Ne = not Eq. Tied over all ordered pairs of a 32-value real palette x 6 relations plus throwing operands; the driver compares against exact rational order computed with GMP.",
         "Trusted: as C06; known findings (listed): comparisons where an exact operand truncates to double (Lt(RealDouble(2^53), 2^53+1)), infinite double vs +-oo.",
         "7 (C29)"),
+    "C30": (
+        "Rocq proof (nsatz/field identities in an arbitrary field of characteristic 0 with formal radicals as explicit hypotheses) over a model of solve.cpp's closed forms and dispatch, linsolve through the C24 elimination model + correspondence of solution sets",
+        "Theorems: linear and quadratic solvers are sound and complete with multiplicities; the cubic (all branches incl. Cardano) and quartic (all branches incl. Euler's method, for every choice of resolvent roots) closed forms factor the polynomial identically, so every returned member is a root and all roots are returned; solve_poly dispatch is exact; solve_rational returns every non-pole zero and only zeros of the numerator (pole exclusion refuted for irrational poles = known finding, proved when all roots are rational); linsolve returns the exact solution or reports singularity, never out of bounds. Which complex branch each radical denotes, solve_trig and restricted domains are outside the theorems (oracle: exact substitution where it reduces to a number, numeric residual otherwise - testing, labelled).",
+        "Trusted: Coq kernel; extraction; hand transcription validated by correspondence of result sets; known findings (listed): solve_trig quadrant via atan2, irrational poles not removed by set_complement.",
+        "7 (C30)"),
     "C33": (
         "Rocq proof over an executable state-machine model of Sieve (32-bit arithmetic, observable out-of-range accesses) + correspondence of histories against the rebuilt library",
         "Unbounded theorems (every history, every limit < 2^31, every sieve size 1..2^15 KB): no array access leaves its array, every loop terminates, generate_primes returns exactly the primes up to the limit in increasing order, iterators return the prime sequence without gaps or repeats. The model is tied to the code by running generated histories on the extracted model and on the library rebuilt from /repo and comparing every output.",
